@@ -211,6 +211,9 @@ def replay(cex):
         return replay_query(cex)
     if k == "linear-step":
         return cmh.replay_linear_step(cex)
+    if k == "w":
+        from engine import wrun
+        return wrun.replay_generic(cex)
     return {"reproduced": False, "how": "unknown cex kind"}
 
 
@@ -240,6 +243,9 @@ def main():
             obs.append(common.Ob(f"BMC {d}x{w} K={K} {'/'.join(o[0][0] + ''.join(map(str, o[1:])) for o in skel)}", ob_bmc, (w, d, skel, tmo, "boundary"), hard_s=tmo / 1000 + 120,
                                  bounds={"width": w, "depth": d, "K": K, "skeleton": [list(o) for o in skel]}))
     obs.append(common.Ob("witness: BMC harness reaches collisions and saturation", ob_bmc_witness, (2, 2), kind="witness", hard_s=300))
+    from engine import wrun
+    wobs, wmeta = wrun.obligations("c01", tier)
+    obs += wobs
     results = common.run_obligations(obs, progress=os.environ.get("VERIF_VERBOSE") == "1")
     # induction failures (CTI) are not violations by themselves: the pre-state may be unreachable
     for o, r in zip(obs, results):
@@ -258,7 +264,7 @@ def main():
                 "bmc_multiplicities": "symbolic in {0..3} u {2^32-4..2^32+2} u {2^40}", "induction_multiplicity": "0..2^40 (symbolic)",
                 "ghost_totals": "< 2^44"},
         stubs=["fasthash64 -> uninterpreted; `% width` yields a fresh column < width per (key, row), memoised (same key, same columns in every sketch)",
-               "CountMinLinear.add's cap min(value, 2^32-1) is modelled in the harness (the kernel receives the capped value)"],
+               "CountMinLinear.add's cap min(value, 2^32-1) is modelled in the K harness and decided on the real method by the CrossHair conditions of checks/w_c12.py (add / update(dict) / update(list) / add_ngram of CountMinLinear)"],
         assumptions=["Numba lowering preserves typed-IR semantics", "prange == range for row-disjoint writes in _merge_linear",
                      "update(), add_ngram(), update_ngram() reduce to sequences of add() (C12); save/load is the identity on state (C10)"],
         outside=["shapes beyond the listed ones", "ghost totals >= 2^44", "histories longer than K are covered by the induction, not by BMC",
